@@ -144,16 +144,25 @@ let handle (toks : string list) =
     check "prop" ("ROOTS." ^ label) (chk_roots ops c (n_of_string n) (hashes_of rs))
       (fun () -> Printf.sprintf "spec_n=%s spec_roots=%s impl_n=%s impl_roots=%s"
           (string_of_n c.cn) (str_hs c.croots) n rs)
+  | ["COUNT"; label; v] ->
+    let c = ctx () in
+    check "prop" ("COUNT." ^ label) (chk_count c (n_of_string v))
+      (fun () -> Printf.sprintf "impl=%s spec_live=%d" v (List.length (List.filter (fun o -> o <> None) c.cs)))
   | ["LEAFPOS"; label; tracked; h; res] ->
     let c = ctx () in
     let r = if res = "none" then None else Some (n_of_string res) in
     check "prop" ("LEAFPOS." ^ label) (chk_leafpos ops c (bool_of tracked) (unhex h) r)
       (fun () -> Printf.sprintf "hash=%s spec=%s impl=%s" h
           (match exp_leafpos ops c (bool_of tracked) (unhex h) with None -> "none" | Some p -> string_of_n p) res)
-  | ["GETHASH"; label; full; p; res] ->
+  | "GETHASH" :: label :: full :: p :: res :: more ->
     let c = ctx () in
     check "prop" ("GETHASH." ^ label) (chk_gethash ops c (bool_of full) (n_of_string p) (unhex res))
-      (fun () -> Printf.sprintf "pos=%s spec=%s impl=%s" p (hex_of (hash_at ops c.crows c.clay (n_of_string p))) res)
+      (fun () ->
+         let cls = (match more with
+             | [tot] when gethash_d7_class ops c (nat_of_int (int_of_string tot)) (n_of_string p) (unhex res) ->
+               " class=D7 totalrows=" ^ tot ^ " treerows=" ^ string_of_int (int_of_nat c.crows)
+             | _ -> "") in
+         Printf.sprintf "pos=%s spec=%s impl=%s%s" p (hex_of (hash_at ops c.crows c.clay (n_of_string p))) res cls)
   | "PROVE" :: label :: hs :: rest ->
     let c = ctx () in
     let res = (match rest with
